@@ -306,6 +306,11 @@ func VerifC01_Pack() {
 			continue
 		}
 		required := !collGone
+		if in.kind == "DropCollection" {
+			// a collection marked Dropped was dropped on the source while it still exists downstream
+			// (not "dropped on both sides"): its drop message is exactly what has to be handed over
+			required = !w.srcDropped
+		}
 		switch in.kind {
 		case "Insert", "Delete", "DropPartition":
 			required = vAnd(required, !partGone)
